@@ -218,6 +218,7 @@ func (cf *convFunc) delegate(arm *convArm, n ast.Node, sv types.Object, fo *type
 	arm.makeLenV = arm.makeLenV || sub.makeLenV
 	arm.rangesV = arm.rangesV || sub.rangesV
 	arm.recurses = arm.recurses || sub.recurses
+	arm.setsErr = arm.setsErr || sub.setsErr
 	fresh := len(sub.results) > 0
 	for _, r := range sub.results {
 		if id, ok := ast.Unparen(r).(*ast.Ident); ok {
